@@ -35,6 +35,8 @@ A = asynq.asynq
 
 
 class VErr(Exception):
+    __bool__ = lambda self: False       # unusual but legal: a falsy exception object
+
     pass
 
 
